@@ -183,6 +183,21 @@ var c11Raw = []string{
 	`{"Title":"P","tasks":[{"title":"a"}],"titel":"x"}`, `{"title":"P","tasks":[{"title":"a","state":"done"}]}`, `{"title":"P","tasks":[{"title":"a","epic":"X"}]}`,
 }
 
+// a valid document followed (or preceded) by every kind of JSON token: "several JSON values" and trailing
+// garbage must be refused whatever the stray token is
+func init() {
+	good := `{"title":"P","tasks":[{"title":"a"},{"title":"b","after":["a"]}]}`
+	tails := []string{"}", "]", ",", ":", "x", "1", "-", `"s"`, "null", "true", "{}", "[]", "}}", "]]", "] " + good, "} " + good, ", " + good, "\x00", "/* c */", "// c"}
+	for _, sep := range []string{"", " ", "\n", "\r\n\t"} {
+		for _, t := range tails {
+			c11Raw = append(c11Raw, good+sep+t)
+		}
+	}
+	for _, h := range []string{"}", "]", ",", "x", "1 ", "null ", "[] ", "{} ", "\ufeff"} {
+		c11Raw = append(c11Raw, h+good)
+	}
+}
+
 func runC11(env *core.Env) {
 	w0 := env.W0()
 	rich := buildRich(env, w0)
@@ -372,6 +387,6 @@ func runC11(env *core.Env) {
 		"states": len(pres), "transitions": evals, "traces_validated_against_impl": validated, "samples": samples.list,
 		"exhaustive": env.TimeLeft(), "documents": len(docs) + len(c11Raw), "accepted": acc, "rejected": rej, "outcome_classes": cls,
 		"unconfirmed_candidates": unconfirmed.Load(),
-		"bound":                  "all plan documents with 1-2 tasks over title variants {distinct, duplicate, case variant, trailing space, blank, missing, NFC/NFD} x `after` multisets (<=2) over {other, own, dangling, empty, case variant, trailing-space variant}; all 3-task documents with `after` multisets over the other two titles (every relation incl. cyclic) for distinct and duplicate titles; thorough: all 4096 relations on 4 tasks; body/epic-title variants; 22 structurally invalid payloads; x 5 pre-stores (empty, rich, legacy file name, 2 torn tails)",
+		"bound":                  "all plan documents with 1-2 tasks over title variants {distinct, duplicate, case variant, trailing space, blank, missing, NFC/NFD} x `after` multisets (<=2) over {other, own, dangling, empty, case variant, trailing-space variant}; all 3-task documents with `after` multisets over the other two titles (every relation incl. cyclic) for distinct and duplicate titles; thorough: all 4096 relations on 4 tasks; body/epic-title variants; 22 structurally invalid payloads + a valid document followed by each of 20 stray tokens (4 separators) or preceded by each of 9; x 5 pre-stores (empty, rich, legacy file name, 2 torn tails)",
 	}, []string{"reference model: literal reading of the property (unique non-blank titles, after names another task, acyclic)"})
 }
